@@ -97,7 +97,11 @@ func genFallibleMotif(r *rng) *ccase {
 		if r.chance(1, 2) {
 			f.outs = []int{teT, ts[1]}
 		}
-		switch r.intn(8) {
+		switch r.intn(10) {
+		case 8:
+			f.annots |= aSingleton | aMemoize // contradictory: refused at Bind
+		case 9:
+			f.annots |= aSingleton
 		case 0, 1, 2:
 			f.annots |= aMemoize
 		case 3:
@@ -200,6 +204,8 @@ func genShadowMotif(r *rng) *ccase {
 		}
 		if r.chance(1, 2) {
 			w.sa = []int{t}
+		} else if r.chance(1, 2) {
+			w.sa = []int{ts[2]} // an allowance for some other type: t is still not allowed
 		}
 		if r.chance(1, 6) {
 			w.outs = nil // a wrapper in the stack that does not return t at all
